@@ -134,3 +134,16 @@ func (t *Tape) Dur() Dur {
 		return Dur(1+t.Intn(5)) * 1000000000 // 1-5s
 	}
 }
+
+// SmallDur draws a short delay (never seconds): used where the delay is paid
+// once per read of a long message.
+func (t *Tape) SmallDur() Dur {
+	switch t.Pick(5, 3, 2) {
+	case 0:
+		return 0
+	case 1:
+		return Dur(1+t.Intn(50)) * 1000
+	default:
+		return Dur(1+t.Intn(20)) * 1000000
+	}
+}
